@@ -764,6 +764,10 @@ func (c *Client) Start(msg *Message, handler Handler) error {
 			return err
 		}
 		if err := c.a.Start(msg.TransactionID, d); err != nil {
+			// Not started: do not leave it in the table, where a later
+			// message with this ID would reach the handler.
+			c.release(t, msg.TransactionID)
+
 			return err
 		}
 	}
